@@ -39,6 +39,7 @@ misc support:
 
 import sys
 import os
+import codecs
 import csv
 import gzip
 from io import TextIOWrapper
@@ -503,7 +504,10 @@ class _DictReader_with_version:
         ch = textfp.buffer.peek(1)
 
         try:
-            ch = ch.decode("utf-8")
+            # peek() returns the whole buffered chunk, which may end in the middle
+            # of a multi-byte character: decode incrementally, so that only bytes
+            # that are invalid in any continuation are refused.
+            ch = codecs.getincrementaldecoder("utf-8")().decode(ch)
         except UnicodeDecodeError:
             raise csv.Error("unable to read CSV file")
 
